@@ -214,6 +214,9 @@ type caseIn struct {
 	CancelReq int `json:"cancel_req"`
 	// AsyncUS >= 0: additionally cancel from another goroutine after that many microseconds
 	AsyncUS int `json:"async_us"`
+	// ClosedSrcAt > 0: the read error at this position is the value the REAL afpacket.Source was seen
+	// to return once closed, so the property demands that it ends reading
+	ClosedSrcAt int `json:"closed_src_at,omitempty"`
 }
 
 type caseOut struct {
@@ -522,11 +525,11 @@ func probeCap() int {
 	return c
 }
 
-func (g *gen) cases(n int, exhLen int, exhCancelLen int, pairs int, bursts int) []caseIn {
+func (g *gen) cases(n int, exhLen int, exhCancelLen int, pairs int, bursts int, runs int) []caseIn {
 	var cs []caseIn
 	A := len(alphabet)
 	// every single step of the full alphabet
-	for c := 0; c < 128+A; c++ {
+	for c := 0; c < 128+A && (n > 0 || exhLen > 0); c++ {
 		if c == 0 || (c >= 64 && c < 64+A) || c >= 128 {
 			cs = append(cs, caseIn{Class: "single", Script: []int{c, 0}, Drained: true, CancelReq: -2, AsyncUS: -1})
 		}
@@ -632,6 +635,24 @@ func (g *gen) cases(n int, exhLen int, exhCancelLen int, pairs int, bursts int) 
 		}
 		cs = append(cs, c)
 	}
+	// long runs of unknown read errors with no frame between them (transient faults interleaved),
+	// a consumer that receives all the time, then frames: cap-1, cap, cap+1, 2.5*cap errors
+	for _, nerr := range []int{capacity - 1, capacity, capacity + 1, capacity * 5 / 2} {
+		if nerr < 1 || runs <= 0 {
+			continue
+		}
+		for v := 0; v < runs; v++ {
+			s := []int{0}
+			for k := 0; k < nerr; k++ {
+				for v > 0 && g.r.Intn(6) == 0 {
+					s = append(s, 128+g.pick(g.byClass["t"]))
+				}
+				s = append(s, 128+g.pick(g.byClass["u"]))
+			}
+			s = append(s, 0, 0, 128+g.pick(g.byClass["u"]), 0)
+			cs = append(cs, caseIn{Class: "run-of-unknown-errors", Script: s, Drained: true, CancelReq: -2, AsyncUS: -1})
+		}
+	}
 	for i := range cs {
 		g.uniq(cs[i].Script)
 	}
@@ -715,7 +736,15 @@ func main() {
 	par := flag.Int("par", 96, "receivers running concurrently")
 	corpus := flag.String("corpus", "", "directory of JSON case inputs that are run first")
 	replay := flag.String("replay", "", "JSON file holding one case input: run it and print the observation")
+	runs := flag.Int("runs", 2, "variants of each long run of unknown errors (cap-1, cap, cap+1, 2.5 cap)")
+	source := flag.Bool("source", false, "drive the real afpacket.Source on lo of a private network namespace")
+	srcInner := flag.Bool("realsrc-inner", false, "internal: the real-source scenarios, inside the namespace")
+	srcWait := flag.Int("srcwait", 2000, "how long a closed source is given to end the receiver, ms")
 	flag.Parse()
+	if *srcInner {
+		realSourceInner(*outPath, *srcWait)
+		return
+	}
 	w := hlib.NewOut(*outPath)
 	defer w.Close()
 	w.Put(map[string]interface{}{"kind": "alpha", "names": sentinelNames, "alpha": measureAlphabet()})
@@ -731,7 +760,17 @@ func main() {
 		}
 		cs = []caseIn{in}
 	} else {
-		cs = append(readCorpus(*corpus), newGen(*seed).cases(*n, *exh, *exhc, *pairs, *bursts)...)
+		cs = append(readCorpus(*corpus), newGen(*seed).cases(*n, *exh, *exhc, *pairs, *bursts, *runs)...)
+	}
+	var srcRows []srcOut
+	if *source && *replay == "" {
+		wd, _ := os.Getwd()
+		srcRows = realSource(wd, *srcWait)
+		// what the real source returns once closed, played by the mock: it must end reading
+		for _, j := range closedSourceErrors(srcRows) {
+			cs = append(cs, caseIn{Class: "closed-source-error", Script: []int{0, 128 + j, 0}, Drained: true, CancelReq: -2,
+				AsyncUS: -1, ClosedSrcAt: 1})
+		}
 	}
 	outs := make([]caseOut, len(cs))
 	var wg sync.WaitGroup
@@ -748,5 +787,8 @@ func main() {
 	wg.Wait()
 	for i := range outs {
 		w.Put(outs[i])
+	}
+	for i := range srcRows {
+		w.Put(srcRows[i])
 	}
 }
